@@ -137,6 +137,22 @@ func cmdCheck(args []string) {
 		defer os.RemoveAll(outDir)
 	}
 	keys := e.unitsFor(*prop, "")
+	{
+		var led Ledger
+		if data, err := os.ReadFile(filepath.Join(*verif, "ledger", *prop+".json")); err == nil {
+			json.Unmarshal(data, &led)
+		}
+		if *tier != "thorough" && !*writeLedger {
+			for _, lf := range led.Functions {
+				for _, n := range lf.Undecided {
+					skipRace[n] = true
+				}
+			}
+			for _, kf := range loadKnownFindings(filepath.Join(*verif, "known_findings.txt")) {
+				skipRace[kf.Obligation] = true
+			}
+		}
+	}
 	units := e.runUnits(keys, outDir, timeout, *tier == "thorough")
 	scans := e.runScans(*prop)
 
@@ -155,8 +171,8 @@ func cmdCheck(args []string) {
 		reason string
 	}
 	var failures []failure
-	var knownHits []string
-	var undecided []string
+	knownHits := []string{}
+	undecided := []string{}
 	nObl, nDis := 0, 0
 	perBackend := map[string]int{}
 	solverTime := 0.0
@@ -185,6 +201,9 @@ func cmdCheck(args []string) {
 		earlierFailure := false
 		for _, o := range u.Script.obls {
 			if len(o.Props) > 0 && !hasProp(o.Props, *prop) {
+				if !o.good() {
+					earlierFailure = true
+				}
 				continue
 			}
 			if o.Cover && earlierFailure {
@@ -265,7 +284,7 @@ func cmdCheck(args []string) {
 		}
 	}
 	// unsupported functions that never were in the ledger: reported, not a violation
-	var notAttempted []string
+	notAttempted := []string{}
 	for k, msg := range unsupportedNow {
 		if _, ok := ledger.Functions[k]; !ok {
 			notAttempted = append(notAttempted, k+": "+msg)
